@@ -49,6 +49,45 @@ def check(ctx: Ctx) -> None:
         if a in ctx.rule_text:
             ctx.rule_text[b] = ctx.rule_text.pop(a)
             ctx.floors[b] = ctx.floors.pop(a)
+    # the filter is evaluated against the CURRENT schema (column name -> field id for pruning): the read path keeps no memo
+    single_filter_engine(ctx)
+    from .c02 import r6 as c02_r6
+    ctx.shared(c02_r6, "C02.R6", "C12.R12", "a remembered schema maps a filter column to another column's bounds after the table "
+               "is re-created at the same location")
+
+
+def single_filter_engine(ctx: Ctx, rid: str = "C12.R13") -> None:
+    ctx.rule(rid, "one filter engine: operators are interpreted only in the module that defines FilterOp / _build_condition / "
+             "_file_may_match; every other function that parses a filter hands the parsed expressions to "
+             "to_pyarrow_compute_expression (no API evaluates predicates with kernels of its own)", 2)
+    home = {ctx.prog.cls("filters.FilterOp").module.name, ctx.fn("filters._build_condition").module.name,
+            ctx.fn("filters._file_may_match").module.name}
+    members = set(enum_members(ctx))
+    n_sites = 0
+    for m in sorted(ctx.prog.modules.values(), key=lambda x: x.name):
+        if m.name in home:
+            continue
+        for x in ast.walk(m.tree):
+            if isinstance(x, ast.Attribute) and x.attr in members and isinstance(x.value, ast.Name) and x.value.id == "FilterOp":
+                ctx.ob(rid, None, "FilterOp member interpreted outside the filter engine", None, False,
+                       f"`{norm_text(x)}` in {m.short}: a second predicate evaluator has its own NULL / in / not_in semantics - the APIs "
+                       "stop returning the same multiset", text=f"{m.short}:{norm_text(x)}", file=m.relpath, line=x.lineno)
+    for f in sorted(ctx.prog.functions.values(), key=lambda x: x.qname):
+        if isinstance(f.node, ast.Lambda) or f.module.name in home:
+            continue
+        g = ctx.cfg(f)
+        parses = [n for n in g.calls() if n.id in g.reachable() and any(t.name == "parse_filter_dict" for t in ctx.eff.callees(f, n))]
+        if not parses:
+            continue
+        sl = ctx.slicer(f)
+        engines = [n for n in g.calls() if any(t.name == "to_pyarrow_compute_expression" for t in ctx.eff.callees(f, n))]
+        for pz in parses:
+            n_sites += 1
+            fed = any(isinstance(e.ast, ast.Call) and e.ast.args and pz.ast in sl.origins(e.ast.args[0], e.id)["calls"] for e in engines)
+            ctx.ob(rid, f, "parsed filter is evaluated by to_pyarrow_compute_expression", pz, fed,
+                   "the parsed expressions reach the one expression builder" if fed else
+                   "this function parses a filter but never builds the engine's expression from it: it evaluates the predicate some other way")
+    ctx.ob(rid, None, "filter-parsing functions enumerated", None, n_sites >= 2, f"{n_sites} parse sites outside the engine", nontrivial=False)
 
 
 def enum_members(ctx: Ctx) -> List[str]:
